@@ -9,7 +9,15 @@ from ..check import VERIF, unjson
 from ..kj import blocks, read_tree, scratch, splice, splitlines_keep, tabnorm, tag_pairs, write_tree
 from . import c01
 
+from ..manifest_data import PRES_NOTE  # noqa: E402
+
 LEVEL = "proof"
+
+MANIFEST = {
+    "technique": 'Coq proof (exact characterisation of emplace/collect) + differential correspondence',
+    "text": 'Theorems C02_evolution / C02_tree_evolution / C02_chain_step_shape: regenerated file = fresh file of the new model with the old block of the same cleaned name under each tag; nothing else depends on the old model.',
+    "note": PRES_NOTE,
+}
 RULE = ("cases = (generator kind, model m, mutated model m' (row/state/event/guard/action added, removed, renamed, reordered; other "
         "interface; other diagram / namespace option), user text under a random subset of m's tag pairs); the real generator regenerates "
         "m' over the directory of m; compared with the Coq model and with the oracle 'fresh tree of m' generated into an empty directory "
